@@ -175,6 +175,85 @@ def run(ctx, ck):
               'closing end point differs from the loop formula at the end of the curve: expected `%s`, found `%s`'
               % (diff[0] if diff else (expected, actual)))
     ck.rule('R-SIB.closing-point', 'closing end point of a curve = its loop formula at i = n_segments')
+    # segment ends lie on the specified circle / elliptical helix at uniform angular steps
+    # (polynomial identities with sin^2 = 1 - cos^2; angle linear in the loop index)
+    from ..poly import poly_sym, reduce_trig, cancel
+    ck.rule('R-POLY.on-curve', 'arc / helix end points satisfy the curve equation; angle is linear in the index')
+
+    def trig_resolver(e):
+        if isinstance(e, ast.Call) and len(e.args) == 1 and (dotted(e.func) or '') in ('np.cos', 'np.sin'):
+            return Poly.var(('c:' if e.func.attr == 'cos' else 's:') + norm(e.args[0]))
+        return None
+    # Arc: every appended point [x, y, z]: x^2 + z^2 = radius^2, y = 0
+    g = m.func('mininec.Arc.__init__')
+    pts = [c.args[0] for c in walk_no_nested(g.node) if isinstance(c, ast.Call) and
+           isinstance(c.func, ast.Attribute) and c.func.attr == 'append' and norm(c.func.value) == 'segends'
+           and c.args and isinstance(c.args[0], ast.List) and len(c.args[0].elts) == 3]
+    ck.floor('arc point constructions', len(pts), 2)
+    for i_, pt in enumerate(pts):
+        try:
+            x_, y_, z_ = [poly_sym(e_, {}, trig_resolver) for e_ in pt.elts]
+            angs = {v[2:] for mono in (x_ * x_ + z_ * z_).t for v, e_ in mono if v.startswith(('c:', 's:'))}
+            pairs = [('c:' + a_, 's:' + a_) for a_ in angs]
+            lhs = reduce_trig(x_ * x_ + z_ * z_, pairs)
+            ok = cancel(lhs - Poly.var('radius') * Poly.var('radius')).t == {} and y_.t == {}
+            why = 'x^2 + z^2 = radius^2 and y = 0 for point %s' % norm(pt)
+        except ValueError as e_:
+            ok, why = False, str(e_)
+        ck.ob('R-POLY.on-curve', 'mininec.Arc.__init__|point#%d' % i_, ok, g.loc(pt), why)
+    # angle linear in i with step (a2 - a1) / n
+    la = [s_ for l_ in loops_in(g.node) for s_ in l_.body if isinstance(s_, ast.Assign)
+          and isinstance(s_.targets[0], ast.Name) and s_.targets[0].id == 'a']
+    ok = len(la) == 1
+    if ok:
+        from ..dataflow import sum_terms, product_of
+        terms = sum_terms(la[0].value)
+        lin = [t for sg, t in terms if any(isinstance(x_, ast.Name) and x_.id == 'i' for x_ in ast.walk(t))]
+        const = [t for sg, t in terms if t not in lin]
+        ok = len(lin) == 1 and [norm(t) for t in const] == ['a1']
+        if ok:
+            pr = product_of(lin[0])
+            nn, dd = pr.texts()
+            ok = sorted(nn) == ['a2 - a1', 'i'] and dd == ['n_segments'] and pr.coef == 1
+    ck.ob('R-POLY.on-curve', 'mininec.Arc.__init__|uniform-angle', ok, g.loc(la[0] if la else None),
+          'angle = a1 + (a2 - a1) / n_segments * i')
+    # Helix: (x/xm)^2 + (y/ym)^2 = 1 on both branches (length sign), inside the loop and for the closing point
+    g = m.func('mininec.Helix.__init__')
+
+    def helix_points(stmts, rx, ry):
+        out = []
+        cur = {}
+        for st in stmts:
+            if isinstance(st, ast.Assign) and isinstance(st.targets[0], ast.Name) and st.targets[0].id in ('x', 'y'):
+                cur[st.targets[0].id] = st.value
+            elif isinstance(st, ast.If):
+                alt = dict(cur)
+                for s2 in st.body:
+                    if isinstance(s2, ast.Assign) and isinstance(s2.targets[0], ast.Name) and s2.targets[0].id in ('x', 'y'):
+                        alt[s2.targets[0].id] = s2.value
+                out.append((norm(st.test), alt, rx, ry))
+        out.append(('default', cur, rx, ry))
+        return out
+    hl = [l_ for l_ in loops_in(g.node) if isinstance(l_, ast.For)]
+    cases = []
+    if hl:
+        cases += helix_points(hl[0].body, 'xm', 'ym')
+        body = g.body()
+        cases += helix_points(body[body.index(hl[0]) + 1:], 'rx2', 'ry2')
+    ck.floor('helix point cases', len(cases), 4)
+    for i_, (cond, vals, rx, ry) in enumerate(cases):
+        try:
+            x_ = poly_sym(vals['x'], {}, trig_resolver)
+            y_ = poly_sym(vals['y'], {}, trig_resolver)
+            RX, RY = Poly.var(rx), Poly.var(ry)
+            lhs = x_ * x_ * RY * RY + y_ * y_ * RX * RX
+            angs = {v[2:] for mono in lhs.t for v, e_ in mono if v.startswith(('c:', 's:'))}
+            pairs = [('c:' + a_, 's:' + a_) for a_ in angs]
+            ok = cancel(reduce_trig(lhs, pairs) - RX * RX * RY * RY).t == {}
+            why = '(x/%s)^2 + (y/%s)^2 = 1 on branch `%s`' % (rx, ry, cond)
+        except (ValueError, KeyError) as e_:
+            ok, why = False, 'point not understood: %s' % e_
+        ck.ob('R-POLY.on-curve', 'mininec.Helix.__init__|%s|%s' % ('loop' if rx == 'xm' else 'closing', cond), ok, g.loc(), why)
     cc = m.func('mininec.Curve.compute_segments')
     cfl2 = ctx.flow(cc)
     ls = [l for l in loops_in(cc.node) if isinstance(l, ast.For)]
